@@ -26,11 +26,11 @@ CLAIMED = {
  "C07": ("One inductive step per end-of-block value-moving kernel (blockRewards+rewardsToPool, distributeRewards, settleValidatorRewards, processWithdrawQueue) with a ghost sum over balances, reward accounts, role pools, residue, pending withdrawals and the block's fees; penalties are in C05, fee charging in C17 (whose staking-converter contract harness - reported gas = consumed gas - also runs here); the four value-moving take-effect handlers of staking actions conserve stake + withdraw queue + balances.",
          "Trusted: gosym, z3 (non-linear Int, standalone fallback); online validators hold >= 1 stake unit; submission-side staking handlers and EVM transfers outside. One open known finding (forced settle loses rewards).",
          "solver-based symbolic execution of go/ssa (SMT Int mode, non-linear), inductive conservation step"),
- "C08": ("Inductive step on the real StateDB validator/delegation code from an arbitrary consistent two-validator state (symbolic role/status/token, a delegator with up to two delegations): statistics = recomputation, index = live set, per-validator sums and delegator links after every mutation and after its revert.",
-         "Trusted: gosym, z3; fake Database/Trie behind the repo's own interfaces; PubToAddress/RLP of the delegator list idealised; commit+reload outside.",
+ "C08": ("Inductive step on the real StateDB validator/delegation code from an arbitrary consistent two-validator state (symbolic role/status/token, a delegator with up to two delegations): statistics = recomputation, index = live set, per-validator sums and delegator links after every mutation and after its revert (also after every value-moving staking action taking effect).",
+         "Trusted: gosym, z3; fake Database/Trie behind the repo's own interfaces; PubToAddress/RLP of the delegator list idealised; commit+reload outside. One open known finding (RemoveValidator keeps the index entry).",
          "solver-based symbolic execution of go/ssa (SMT Int mode), inductive invariant step"),
  "C09": ("Real Snapshot/RevertToSnapshot/Finalise/journal over a fake trie: every operation sequence of the bound follows a snapshot-stack model with both revision lists exact; mutate-then-revert restores every account and validator observable from an arbitrary small pre-state; a reverted frame leaves no trace in the committed content either (twin runs over a snapshot store, content reopened from the committed roots).",
-         "Trusted: gosym, z3; roots after revert (hashing) outside; sequences of 6/7 operations, 2 accounts, 2 validators, 2 withdraw records.",
+         "Trusted: gosym, z3; roots after revert (hashing) outside; sequences of 6/7 operations, 2 accounts, 2 validators, 2 withdraw records. One open known finding (staking records not journalled).",
          "solver-based symbolic execution of go/ssa (bv + Int), bounded sequences and one-step inverse"),
  "C10": ("Copy half: a fresh StateDB.Copy is observationally equal to the original and one arbitrary mutation of either side never shows on the other (exact object identity in the executor); ValidatorIndex.List ordering for all sync.Map iteration orders. Reopen half: after arbitrary writes (accounts, storage, code; validators, delegation, withdraw queue) with transaction ends, intermediate roots and commits at arbitrary positions, the state reopened from the committed roots shows the live object's persistent content and that of a twin run that flushed only once (the work may continue on a Copy taken at a transaction boundary); staking records of a copy are equal and independent.",
          "Trusted: gosym, z3; snapshot store behind the repo's Trie/Database interfaces (a root identifies the flushed content; 'same content => same root' rests on C13/C14); the codec is modelled as the identity on whole objects (fields dropped by custom EncodeRLP/DecodeRLP outside); EIP-158 view of existence. One open known finding (a copy taken mid-transaction does not finalise a pending self-destruct).",
@@ -41,8 +41,8 @@ CLAIMED = {
  "C13": ("Structural half: compact/hex key encodings on symbolic nibble strings, decodeNode on every byte string up to the bound (+ shaped full nodes), in-memory insert/delete/get against an association-list model and a canonical rebuild (history independence before hashing), also after commit+reopen with hash references resolved through the real simplifyNode/expandNode pair (incl. prefix keys / branch values); the hasher embeds exactly the nodes shorter than 32 bytes; proofs from the real Prove verify with the real VerifyProof to the stored value or absence; the real iterator returns exactly the surviving pairs, ascending.",
          "Trusted: gosym, z3; canonical nibble labelling (symmetry of the trie code under per-position relabelling). NOT covered: hashing/root value, byte-level proof encoding, the root value (keccak over reflection RLP), iterator order, the committer and disk format, node DB GC.",
          "solver-based symbolic execution of go/ssa (bv)"),
- "C14": ("Primitive layer: every byte string of the stated lengths through rlp.Split*/CountValues/readKind/readSize and Stream.Bytes/Uint/Raw/List; accept => canonical against an independent Yellow-Paper encoder; encoder heads for every 64-bit size; allocation bounded by input; the reflect-facing leaf decoders/writers (big.Int, uint64, []byte, string, bool) and the rlp:\"nil\" optional-pointer decoder on a minimal reflect model; the consensus layer's entry points accept exactly one RLP value (codec entry points by contract over the real rlp.Split).",
-         "Trusted: gosym incl. its minimal reflect model, z3. NOT covered: struct/list decoders, the type cache, custom EncodeRLP/DecodeRLP pairs and the other handlers built on them. One open known finding (nil tag accepts the empty list).",
+ "C14": ("Primitive layer: every byte string of the stated lengths through rlp.Split*/CountValues/readKind/readSize and Stream.Bytes/Uint/Raw/List; accept => canonical against an independent Yellow-Paper encoder; encoder heads for every 64-bit size; allocation bounded by input; the reflect-facing leaf decoders/writers (big.Int, uint64, []byte, string, bool) and the rlp:\"nil\" optional-pointer decoder on a minimal reflect model; the custom codec pairs of Validator / ValidatorsStat / ValidatorIndex round-trip every field; the consensus layer's entry points accept exactly one RLP value (codec entry points by contract over the real rlp.Split).",
+         "Trusted: gosym incl. its minimal reflect model, z3. NOT covered: struct/list decoders, the type cache, the remaining custom EncodeRLP/DecodeRLP pairs and the other handlers built on them. One open known finding (nil tag accepts the empty list).",
          "solver-based symbolic execution of go/ssa (bv) over fully symbolic byte buffers"),
  "C15": ("Each computational opcode's real execute function (from the real Istanbul jump table) on arbitrary 256-bit operands with sentinel, shared intPool and aliasing checks; oracle = SMT-LIB 256-bit BV theory, or Yellow-Paper integer definitions (DIV/SDIV/MOD/SMOD/ADDMOD/MULMOD/EXP); EXP's dynamic gas = 10 + 50 per exponent byte.",
          "Trusted: gosym incl. its big.Int model (520-bit two's complement / SMT Int), z3; EXP: full width for exponents <= 7/15, modulo 2^8 for sparse multi-limb exponents (2/3 limbs); memory/storage opcodes outside.",
@@ -50,7 +50,7 @@ CLAIMED = {
  "C16": ("One call frame = the inductive step over call depth: real Call/CallCode/DelegateCall/StaticCall/create against a recording fake of vm.StateDB with the callee replaced by an arbitrary outcome: snapshot before every mutation, revert-to-that-snapshot last on failure, all gas burnt unless REVERT, refusals touch nothing and return the gas; one CALL-family instruction's gas forwarding and the frame-local static flag through the real interpreter; the real interpreter loop in read-only mode over all 256 opcode bytes of the real jump table.",
          "Trusted: gosym, z3; callee summary (mutates only through vm.StateDB, leaves gas <= given). NOT covered: whole multi-contract programs, SELFDESTRUCT burn; the journal itself is C09 (its committed-view twin harness also runs here).",
          "solver-based symbolic execution of go/ssa (bv), one inductive frame with an arbitrary callee summary"),
- "C17": ("Signer V/network-id arithmetic, signature value ranges and hash binding on symbolic V/R/S/ids with recovery and rlpHash idealised; the real ApplyMessageEntry (preCheck, buyGas, IntrinsicGas, UseGas, refundGas, GasPool) on the real StateDB with an arbitrary gas-monotone converter step: refusals change nothing, exact charge, refund <= half; the staking module's TxConverter.ApplyMessage meets the converter contract assumed there (nonce +1 failed or not, reported gas = consumed gas; protocol versions 4 and 5); the per-transaction sender cache is transparent across network ids.",
+ "C17": ("Signer V/network-id arithmetic, signature value ranges and hash binding on symbolic V/R/S/ids with recovery and rlpHash idealised; the real ApplyMessageEntry (preCheck, buyGas, IntrinsicGas, UseGas, refundGas, GasPool) on the real StateDB with an arbitrary gas-monotone converter step: refusals change nothing, exact charge, refund <= half; the staking module's TxConverter.ApplyMessage meets the converter contract assumed there (nonce +1 failed or not, reported gas = consumed gas; protocol versions 4 and 5); the per-transaction sender cache is transparent across network ids; the default converter's base cost is 53000 for every creation and 21000 for every call.",
          "Trusted: gosym, z3; secp256k1 and rlpHash injectivity idealised; one of r,s full length. One open known finding (pre-refund gasUsed).",
          "solver-based symbolic execution of go/ssa (bv / SMT Int)"),
  "C18": ("Bounded symbolic histories over the real download queue (Schedule, ReserveBodies, DeliverBodies, CancelBodies, Revoke, ExpireBodies, Results, real prque, peer lacking sets) in FullSync: ghost accounting of every header across task queue / peer requests / done set, strictly ascending gap-free single release with the body matching the transaction root, refusals of unsolicited data, then completion with one honest peer.",
